@@ -32,10 +32,11 @@ ENUM = {
     "quick": [("q_full", "full3"), ("q_bracket", "full3"), ("q_quoted", "full3"), ("q_coll", "full3"),
               ("q_class", "class3")],
     "thorough": [("t_full", "full3"), ("t_bracket", "full3"), ("t_quoted", "full3"), ("t_coll", "full3"),
-                 ("t_class", "class3"), ("t_long", "full4"), ("t_quoted5", "full3"), ("q_quoted", "full3"), ("q_coll", "full3")],
+                 ("t_class", "class3"), ("t_long", "full4"), ("q_quoted", "full3"), ("q_coll", "full3")],
 }
 SHELL = {"quick": "q_shell", "thorough": "t_shell"}
 RANDOM = {"quick": 40000, "thorough": 400000}
+MC = {"quick": "MC_Fnmatch.cfg", "thorough": "MC_Fnmatch_t.cfg"}
 
 REGEX_SPECIAL = set("\\.+*?()|[]{}^$#&-~")
 
@@ -74,6 +75,7 @@ def _enum_one(wd, name, findcfg, rep, acc, lock, workers):
     vlib.log(f"[gen] {name}: {r.distinct} patterns, {r.wall:.1f}s")
     # distinct match sets (pure plumbing: de-duplication of TLC's own output)
     msets, order = {}, []
+    feats = {}
     nlines = 0
     with open(lines) as f:
         for line in f:
@@ -81,6 +83,8 @@ def _enum_one(wd, name, findcfg, rep, acc, lock, workers):
                 continue
             nlines += 1
             d = json.loads(line)
+            for ft in d.get("ft", []):
+                feats[ft] = feats.get(ft, 0) + 1
             if d["u"] or d["mc"]:
                 continue
             key = tuple(sorted(d["m"]))
@@ -141,6 +145,8 @@ def _enum_one(wd, name, findcfg, rep, acc, lock, workers):
         acc["evals"] += stats["match_evals"] + stats["find_evals"]
         acc["msets"] += len(order)
         acc["configs"][name] = stats
+        for k, v in feats.items():
+            acc["features"][k] = acc["features"].get(k, 0) + v
         if sample:
             acc["samples"].append(sample)
     for p in (lines, mpath, tables, out):
@@ -170,6 +176,8 @@ def _validate(trace, shards=8, timeout=3000):
         r = vlib.tlc("Trace_Fnmatch", "Trace_Fnmatch.cfg", workers=1, timeout=timeout, depth_first=True,
                      env={"TRACE": os.path.abspath(p)}, xmx="3g")
         vlib.tlc_must_pass(r, f"trace validation {os.path.basename(p)}")
+        if any(x.startswith('"{') for x in r.lines):
+            raise vlib.ToolError("a JSON line printed by Trace_Fnmatch could not be decoded")
         return k, r
 
     rejects, judged, opened = [], 0, 0
@@ -292,11 +300,11 @@ def run(tier):
     rep = vlib.Reporter(PID)
     vlib.build_harness(PKG)
     acc = {"states": 0, "transitions": 0, "patterns": 0, "nontrivial": 0, "evals": 0, "msets": 0, "configs": {},
-           "samples": []}
+           "samples": [], "features": {}}
     lock = threading.Lock()
 
     # P1: the oracle itself
-    mc = vlib.tlc("MC_Fnmatch", "MC_Fnmatch.cfg", workers=8, timeout=1500, coverage=True)
+    mc = vlib.tlc("MC_Fnmatch", MC[tier], workers=8, timeout=2400)
     vlib.tlc_must_pass(mc, "oracle sanity theorems and calibration (MC_Fnmatch)")
     vlib.log(f"[p1] MC_Fnmatch: {mc.distinct} patterns x theorems, calibration ASSUMEs hold, {mc.wall:.1f}s")
     acc["states"] += mc.distinct
@@ -334,7 +342,10 @@ def run(tier):
         "patterns_enumerated": acc["patterns"],
         "distinct_match_sets": acc["msets"],
         "per_config": acc["configs"],
-        "oracle_model_check": {"states": mc.distinct, "coverage": mc.coverage},
+        "patterns_using_construct": acc["features"],
+        "oracle_model_check": {"config": MC[tier], "patterns": mc.distinct,
+                               "theorems": ["T_Literal", "T_Quoted", "T_Unclosed", "T_Concat", "T_Wild", "T_Complement",
+                                            "T_Ranges", "T_Find", "T_FindDef", "T_Trim", "T_Period", "T_Case"]},
         "random_records": acc["random"],
         "random_records_pattern_left_open_by_posix": acc["random_open"],
         "random_records_rejected": acc["random_rejected"],
